@@ -368,3 +368,300 @@ Proof.
   intros s Hs. destruct (py_int0 s) as [z|] eqn:E; [left; exists z; reflexivity | right].
   apply py_int0_none_iff_lem; assumption.
 Qed.
+
+(** * 6. Addresses of name and name[i] *)
+
+Lemma elem_address_lem : forall vars n a size ln,
+  var_lookup vars n = Some (a, size) ->
+  var_address vars (n, None) ln = POk a /\
+  (forall d i, py_int10 d = Some i -> var_address vars (n, Some d) ln = POk (a + size * i)) /\
+  (forall d, py_int10 d = None -> var_address vars (n, Some d) ln = PErr (PSyntax ln)).
+Proof.
+  intros vars n a size ln H. unfold var_address. cbn [fst snd]. rewrite H.
+  split; [reflexivity|]. split; intros d; [intros i Hd | intros Hd]; rewrite Hd; reflexivity.
+Qed.
+
+Lemma elem_address_unknown_lem : forall vars n idx ln,
+  var_lookup vars n = None -> var_address vars (n, idx) ln = PErr (PVariable ln).
+Proof. intros vars n idx ln H. unfold var_address. cbn [fst]. rewrite H. reflexivity. Qed.
+
+(* the index is read in base 10: a digit string of at most 4300 digits denotes its value *)
+Lemma py_int10_dec_lem : forall d, Forall is_dec_char d -> Z.of_nat (length d) <= 4300 ->
+  py_int10 d = Some (positional 10 (map dec_digit d)) /\ 0 <= positional 10 (map dec_digit d).
+Proof.
+  intros d HF Hl. unfold py_int10, max_str_digits.
+  replace (Z.of_nat (length d) >? 4300) with false by lia.
+  rewrite digits_value_positional.
+  rewrite (map_ext_Forall is_dec_char hexval dec_digit d hexval_dec HF). split; [reflexivity|].
+  clear Hl. induction HF as [|c t Hc Ht IH]; cbn [map positional]; [lia|].
+  unfold is_dec_char, dec_digit in *.
+  assert (0 <= 10 ^ Z.of_nat (length (map dec_digit t))) by (apply Z.pow_nonneg; lia). nia.
+Qed.
+
+(** * 3/4. Pseudo-instructions *)
+
+(* run a list of instructions in sequence, stopping at the first exception *)
+Fixpoint exec_list (l : list instr) (s : st) : st * option err :=
+  match l with
+  | [] => (s, None)
+  | i :: t => match behavior i s with
+              | (s', None) => exec_list t s'
+              | r => r
+              end
+  end.
+
+(* the instructions one source line assembles to: expansion, then instantiation of every entry *)
+Definition assemble_line (vars : vartab) (labels : zmap) (addr ln : Z) (b : tbody) : pres (list instr) :=
+  match expand_one vars ln b with
+  | PErr e => PErr e
+  | POk bs => instantiate (map (fun b' => (ln, EBody b')) bs) labels addr
+  end.
+
+Lemma exec_list_app a b s :
+  exec_list (a ++ b) s = match exec_list a s with (s', None) => exec_list b s' | r => r end.
+Proof.
+  revert s. induction a as [|i t IH]; intros s; cbn [app exec_list]; [reflexivity|].
+  destruct (behavior i s) as [s' [e|]]; [reflexivity | apply IH].
+Qed.
+
+Lemma mset_mset_same m k a b : mset (mset m k a) k b = mset m k b.
+Proof.
+  induction m as [|[k' v'] t IH]; cbn [mset].
+  - rewrite Z.eqb_refl. reflexivity.
+  - destruct (k' =? k) eqn:E; cbn [mset]; rewrite ?Z.eqb_refl, ?E; [reflexivity|]. rewrite IH. reflexivity.
+Qed.
+
+Lemma rset_rset s r a b : rset (rset s r a) r b = rset s r b.
+Proof.
+  unfold rset. destruct ((0 <? r) && (r <? 32)) eqn:E; [|reflexivity].
+  unfold with_regs. cbn. rewrite mset_mset_same. reflexivity.
+Qed.
+
+Lemma rget_rset_same s r v : 0 < r < 32 -> rget (rset s r v) r = v.
+Proof.
+  intros H. unfold rget, rset. replace ((0 <? r) && (r <? 32)) with true by lia.
+  cbn [regs with_regs]. apply mget_mset_eq.
+Qed.
+
+Lemma rget_rset_other s r v k : k <> r -> rget (rset s r v) k = rget s k.
+Proof.
+  intros H. unfold rget, rset. destruct ((0 <? r) && (r <? 32)); [|reflexivity].
+  cbn [regs with_regs]. apply mget_mset_neq. congruence.
+Qed.
+
+Lemma rset_frame s r v :
+  ms (rset s r v) = ms s /\ out (rset s r v) = out s /\ pc (rset s r v) = pc s /\ im (rset s r v) = im s /\
+  exitc (rset s r v) = exitc s /\ cycles (rset s r v) = cycles s.
+Proof. unfold rset. destruct (_ && _); repeat split; reflexivity. Qed.
+
+(* the two-instruction constant loader *)
+Lemma lui_addi_exec s r hi lo v : 0 < r < 32 -> hi_lo v = (hi, lo) ->
+  exec_list [mk (ILui r hi); mk (II ADDI r r lo)] s = (rset s r (U32 v), None).
+Proof.
+  intros Hr Hv. destruct (hi_lo_correct_lem v hi lo Hv) as (_ & _ & _ & _ & E).
+  cbn [exec_list mk behavior i_behavior]. rewrite rget_rset_same by assumption. rewrite rset_rset.
+  f_equal. f_equal. rewrite <- E. rewrite !U32_eq. lia.
+Qed.
+
+(* instantiation of the re-parsed token trees *)
+Lemma inst_lui rd r imm z labels addr ln : reg_num rd = Some r -> py_int0 imm = Some z ->
+  instantiate_one (tok_u MN_LUI rd imm) labels addr ln = POk (mk (ILui r z)).
+Proof.
+  intros Hr Hz. unfold instantiate_one, tok_u, need_reg, need_int, pbind.
+  cbn [k_mn k_rd k_imm k_reg1 k_reg2]. rewrite Hr, Hz. reflexivity.
+Qed.
+
+Lemma inst_addi r1 r2 n1 n2 imm z labels addr ln :
+  reg_num r1 = Some n1 -> reg_num r2 = Some n2 -> py_int0 imm = Some z ->
+  instantiate_one (tok_rri MN_ADDI r1 r2 imm) labels addr ln = POk (mk (II ADDI n1 n2 z)).
+Proof.
+  intros H1 H2 Hz. unfold instantiate_one, tok_rri, need_reg, need_int, pbind.
+  cbn [k_mn k_rd k_imm k_reg1 k_reg2]. rewrite H1, H2, Hz. reflexivity.
+Qed.
+
+Lemma inst_load mn r1 r2 n1 n2 imm z labels addr ln : 27 <= mn <= 31 ->
+  reg_num r1 = Some n1 -> reg_num r2 = Some n2 -> py_int0 imm = Some z ->
+  instantiate_one (tok_rri mn r1 r2 imm) labels addr ln = POk (mk (ILoad (lop_of_mn mn) n1 n2 z)).
+Proof.
+  intros Hm H1 H2 Hz. unfold instantiate_one, tok_rri, need_reg, need_int, pbind.
+  cbn [k_mn k_rd k_imm k_reg1 k_reg2]. rewrite H1, H2, Hz.
+  assert (C : mn = 27 \/ mn = 28 \/ mn = 29 \/ mn = 30 \/ mn = 31) by lia.
+  destruct C as [-> | [-> | [-> | [-> | ->]]]]; reflexivity.
+Qed.
+
+Lemma inst_store mn r1 r2 n1 n2 imm z labels addr ln : 34 <= mn <= 36 ->
+  reg_num r1 = Some n1 -> reg_num r2 = Some n2 -> py_int0 imm = Some z ->
+  instantiate_one (tok_rri mn r1 r2 imm) labels addr ln = POk (mk (IStore (sop_of_mn mn) n2 n1 z)).
+Proof.
+  intros Hm H1 H2 Hz. unfold instantiate_one, tok_rri, need_reg, need_int, pbind.
+  cbn [k_mn k_rd k_imm k_reg1 k_reg2]. rewrite H1, H2, Hz.
+  assert (C : mn = 34 \/ mn = 35 \/ mn = 36) by lia.
+  destruct C as [-> | [-> | ->]]; reflexivity.
+Qed.
+
+Lemma reg_x0 : reg_num x0tok = Some 0.
+Proof. reflexivity. Qed.
+
+Lemma hi_lo_reparse v hi lo : hi_lo v = (hi, lo) ->
+  py_int0 (str_dec hi) = Some hi /\ py_int0 (str_dec lo) = Some lo.
+Proof.
+  intros H. destruct (hi_lo_correct_lem v hi lo H) as (Hlo & Hhi & _).
+  change (2 ^ 20) with 1048576 in Hhi. split; apply py_int0_str_dec_small; lia.
+Qed.
+
+(* 3. li *)
+Lemma li_correct_lem : forall vars labels addr ln i rd imm c r s,
+  k_mn i = MN_LI -> k_rd i = Some rd -> k_imm i = Some imm ->
+  py_int0 imm = Some c -> reg_num rd = Some r -> 0 < r < 32 -> wf_regs (regs s) ->
+  exists ins,
+    assemble_line vars labels addr ln (BIns i) = POk ins /\
+    ins = (if (-2048 <=? c) && (c <=? 2047) then [mk (II ADDI r 0 c)]
+           else [mk (ILui r (fst (hi_lo c))); mk (II ADDI r r (snd (hi_lo c)))]) /\
+    (length ins = 1%nat <-> -2048 <= c <= 2047) /\ (length ins = 2%nat <-> ~ -2048 <= c <= 2047) /\
+    exec_list ins s = (rset s r (c mod 2 ^ 32), None).
+Proof.
+  intros vars labels addr ln i rd imm c r s Hmn Hrd Himm Hc Hr Hr32 [Hregs H0].
+  unfold assemble_line, expand_one. rewrite Hmn, Hrd, Himm, Hc. change (MN_LI =? MN_LI) with true. cbv iota.
+  destruct (hi_lo c) as [hi lo] eqn:Ehl. cbn [fst snd].
+  destruct (hi_lo_reparse c hi lo Ehl) as [Phi Plo].
+  destruct ((c >? 2047) || (c <? -2048)) eqn:Erange.
+  - replace ((-2048 <=? c) && (c <=? 2047)) with false by lia.
+    eexists. split.
+    + cbn [map instantiate]. rewrite (inst_lui rd r _ hi) by assumption.
+      rewrite (inst_addi rd rd r r _ lo) by assumption. cbn [pbind]. reflexivity.
+    + split; [reflexivity|]. cbn [length]. split; [lia|]. split; [lia|].
+      apply lui_addi_exec; assumption.
+  - replace ((-2048 <=? c) && (c <=? 2047)) with true by lia.
+    eexists. split.
+    + cbn [map instantiate]. rewrite (inst_addi rd x0tok r 0 _ c); [cbn [pbind]; reflexivity | assumption | reflexivity |].
+      apply py_int0_str_dec_small. lia.
+    + split; [reflexivity|]. cbn [length]. split; [lia|]. split; [lia|].
+      cbn [exec_list mk behavior i_behavior]. f_equal. f_equal.
+      unfold rget. rewrite H0. destruct (sext_all c) as (E12 & _). rewrite E12. unfold sextn; cbv zeta.
+      change (2 ^ 12) with 4096. change (2 ^ (12 - 1)) with 2048. change (2 ^ 32) with 4294967296.
+      rewrite !U32_eq. destruct (c mod 4096 <? 2048) eqn:E; lia.
+Qed.
+
+(* 4. la, load by name, store by name *)
+Lemma la_correct_lem : forall vars labels addr ln i v rd target r s,
+  k_mn i = MN_LA -> k_var i = Some v -> k_reg1 i = Some rd ->
+  var_address vars v ln = POk target -> reg_num rd = Some r -> 0 < r < 32 ->
+  exists ins,
+    assemble_line vars labels addr ln (BIns i) = POk ins /\
+    ins = [mk (ILui r (fst (hi_lo target))); mk (II ADDI r r (snd (hi_lo target)))] /\
+    exec_list ins s = (rset s r (U32 target), None).
+Proof.
+  intros vars labels addr ln i v rd target r s Hmn Hv Hrd Ha Hr Hr32.
+  unfold assemble_line, expand_one. rewrite Hmn, Hv, Ha, Hrd.
+  change (MN_LA =? MN_LI) with false. change (is_load_mn MN_LA) with false.
+  change (MN_LA =? MN_LA) with true. cbv iota. cbn [orb]. cbv iota.
+  destruct (hi_lo target) as [hi lo] eqn:Ehl. cbn [fst snd].
+  destruct (hi_lo_reparse target hi lo Ehl) as [Phi Plo].
+  eexists. split.
+  - cbn [map instantiate]. rewrite (inst_lui rd r _ hi) by assumption.
+    rewrite (inst_addi rd rd r r _ lo) by assumption. cbn [pbind]. reflexivity.
+  - split; [reflexivity|]. apply lui_addi_exec; assumption.
+Qed.
+
+Lemma load_by_name_correct_lem : forall vars labels addr ln i v rd target r s,
+  27 <= k_mn i <= 31 -> k_var i = Some v -> k_reg1 i = Some rd ->
+  var_address vars v ln = POk target -> reg_num rd = Some r -> 0 < r < 32 ->
+  let o := lop_of_mn (k_mn i) in
+  let s1 := rset s r (U32 target) in
+  exists ins,
+    assemble_line vars labels addr ln (BIns i) = POk ins /\
+    ins = [mk (ILui r (fst (hi_lo target))); mk (II ADDI r r (snd (hi_lo target))); ILoad o r r 0] /\
+    exec_list ins s = behavior (ILoad o r r 0) s1 /\
+    behavior (ILoad o r r 0) s1 =
+      match st_read s1 (load_bits o) (U32 target) true with
+      | (Ok w, s') => (rset s' r (load_ext o w), None)
+      | (Err e, s') => (s', Some e)
+      end.
+Proof.
+  intros vars labels addr ln i v rd target r s Hmn Hv Hrd Ha Hr Hr32 o s1.
+  unfold assemble_line, expand_one. rewrite Hv, Ha, Hrd.
+  replace (k_mn i =? MN_LI) with false by (unfold MN_LI; lia).
+  replace (is_load_mn (k_mn i)) with true by (unfold is_load_mn; lia).
+  cbn [orb]. cbv iota.
+  destruct (hi_lo target) as [hi lo] eqn:Ehl. cbn [fst snd].
+  destruct (hi_lo_reparse target hi lo Ehl) as [Phi Plo].
+  eexists. split; [|split; [reflexivity|split]].
+  - cbn [app map instantiate]. rewrite (inst_lui rd r _ hi) by assumption.
+    rewrite (inst_addi rd rd r r _ lo) by assumption.
+    rewrite (inst_load (k_mn i) rd rd r r [48] 0) by (try assumption; reflexivity).
+    cbn [pbind]. reflexivity.
+  - change [mk (ILui r hi); mk (II ADDI r r lo); ILoad o r r 0]
+      with ([mk (ILui r hi); mk (II ADDI r r lo)] ++ [ILoad o r r 0]).
+    rewrite exec_list_app. rewrite (lui_addi_exec s r hi lo target) by assumption.
+    cbn [exec_list]. fold s1. destruct (behavior (ILoad o r r 0) s1) as [s' [e|]]; reflexivity.
+  - assert (Ht1 : rget s1 r = U32 target) by (unfold s1; apply rget_rset_same; assumption).
+    cbn [behavior]. rewrite Ht1. rewrite Z.add_0_r. reflexivity.
+Qed.
+
+Lemma store_by_name_correct_lem : forall vars labels addr ln i v rs rt target x t s,
+  34 <= k_mn i <= 36 -> k_var i = Some v -> k_reg1 i = Some rs -> k_reg2 i = Some rt ->
+  var_address vars v ln = POk target -> reg_num rs = Some x -> reg_num rt = Some t -> 0 < t < 32 ->
+  let o := sop_of_mn (k_mn i) in
+  let s1 := rset s t (U32 target) in
+  exists ins,
+    assemble_line vars labels addr ln (BIns i) = POk ins /\
+    ins = [mk (ILui t (fst (hi_lo target))); mk (II ADDI t t (snd (hi_lo target))); IStore o t x 0] /\
+    exec_list ins s = behavior (IStore o t x 0) s1 /\
+    behavior (IStore o t x 0) s1 =
+      match st_write s1 (store_bits o) (U32 target) (U (store_bits o) (rget s1 x)) false with
+      | (None, s') => (s', None)
+      | (Some e, s') => (s', Some e)
+      end /\
+    rget s1 t = U32 target /\
+    rget s1 x = (if x =? t then U32 target else rget s x).
+Proof.
+  intros vars labels addr ln i v rs rt target x t s Hmn Hv Hrs Hrt Ha Hx Ht Ht32 o s1.
+  unfold assemble_line, expand_one. rewrite Hv, Ha, Hrs, Hrt.
+  replace (k_mn i =? MN_LI) with false by (unfold MN_LI; lia).
+  replace (is_load_mn (k_mn i)) with false by (unfold is_load_mn; lia).
+  replace (k_mn i =? MN_LA) with false by (unfold MN_LA; lia).
+  replace (is_store_mn (k_mn i)) with true by (unfold is_store_mn; lia).
+  cbn [orb]. cbv iota.
+  destruct (hi_lo target) as [hi lo] eqn:Ehl. cbn [fst snd].
+  destruct (hi_lo_reparse target hi lo Ehl) as [Phi Plo].
+  assert (Ht1 : rget s1 t = U32 target) by (unfold s1; apply rget_rset_same; assumption).
+  eexists. split; [|split; [reflexivity|split; [|split; [|split]]]].
+  - cbn [map instantiate]. rewrite (inst_lui rt t _ hi) by assumption.
+    rewrite (inst_addi rt rt t t _ lo) by assumption.
+    rewrite (inst_store (k_mn i) rs rt x t [48] 0) by (try assumption; reflexivity).
+    cbn [pbind]. reflexivity.
+  - change [mk (ILui t hi); mk (II ADDI t t lo); IStore o t x 0]
+      with ([mk (ILui t hi); mk (II ADDI t t lo)] ++ [IStore o t x 0]).
+    rewrite exec_list_app. rewrite (lui_addi_exec s t hi lo target) by assumption.
+    cbn [exec_list]. fold s1. destruct (behavior (IStore o t x 0) s1) as [s' [e|]]; reflexivity.
+  - cbn [behavior]. rewrite Ht1. change (U32 0) with 0. rewrite Z.add_0_r.
+    replace (U32 (U32 target)) with (U32 target) by (rewrite !U32_eq; lia). reflexivity.
+  - exact Ht1.
+  - destruct (x =? t) eqn:E.
+    + apply Z.eqb_eq in E. subst x. exact Ht1.
+    + unfold s1. apply rget_rset_other. lia.
+Qed.
+
+(* the same with the variable table spelled out: name[i] and plain name *)
+Lemma la_elem_lem : forall vars labels addr ln i n idx rd a size r s,
+  k_mn i = MN_LA -> k_var i = Some (n, idx) -> k_reg1 i = Some rd ->
+  var_lookup vars n = Some (a, size) -> reg_num rd = Some r -> 0 < r < 32 ->
+  forall target,
+  (idx = None /\ target = a \/ exists d k, idx = Some d /\ py_int10 d = Some k /\ target = a + size * k) ->
+  exists ins,
+    assemble_line vars labels addr ln (BIns i) = POk ins /\ length ins = 2%nat /\
+    exec_list ins s = (rset s r (U32 target), None) /\
+    rget (rset s r (U32 target)) r = target mod 2 ^ 32 /\
+    (forall k, k <> r -> rget (rset s r (U32 target)) k = rget s k) /\
+    ms (rset s r (U32 target)) = ms s /\ out (rset s r (U32 target)) = out s.
+Proof.
+  intros vars labels addr ln i n idx rd a size r s Hmn Hv Hrd Hl Hr Hr32 target Hidx.
+  assert (Ha : var_address vars (n, idx) ln = POk target).
+  { destruct (elem_address_lem vars n a size ln Hl) as (E1 & E2 & _).
+    destruct Hidx as [[-> ->] | (d & k & -> & Hd & ->)]; [exact E1 | apply E2; exact Hd]. }
+  destruct (la_correct_lem vars labels addr ln i (n, idx) rd target r s Hmn Hv Hrd Ha Hr Hr32)
+    as (ins & H1 & H2 & H3).
+  exists ins. split; [exact H1|]. split; [rewrite H2; reflexivity|]. split; [exact H3|].
+  split; [apply rget_rset_same; assumption|]. split; [intros k Hk; apply rget_rset_other; assumption|].
+  destruct (rset_frame s r (U32 target)) as (F1 & F2 & _). split; assumption.
+Qed.
